@@ -174,7 +174,7 @@ CHECKS = {
         "design_ref": "DESIGN.md §5 C13",
     },
     "C14": {
-        "level": "fault_enumeration", "shards": 10, "deadline_quick": 110, "deadline_thorough": 1800,
+        "level": "fault_enumeration", "shards": 12, "deadline_quick": 110, "deadline_thorough": 1800,
         "engine": "E-WORLD as crash-point enumeration",
         "technique": "exhaustive cancellation-point enumeration over the implementation: BFS by replay builds every order of concurrent API calls and gate events up to the depth bound and cancels the constructor context at every quiescent point of every order",
         "rule": "cases = (router x discovery on/off) x (every history up to the depth bound over ~24 API calls each issued from its own goroutine, remote message into a gated validator, blocked write, late stream) x cancellation at every quiescent point; "
